@@ -502,6 +502,23 @@ CLAIMED.update(
     }
 )
 
+CLAIMED.update(
+    {
+        "C09": (
+            "table agreement between the opcode groups the slicer reads and the opcodes the checked-coverage adapter instruments, per version; comparison of the interpreted stack_effects with dis.stack_effect over the running interpreter's opcodes; partition-representative evaluation of the slicer's explicit-data-dependency step against gen/kill laws; provenance rules for slice and checked lines",
+            "Decides the tables and laws the backward traversal rests on: per version every instrumented opcode is expected by the execution-flow builder (METHODS keys within TRACED_NAMES) and, for the running interpreter, "
+            "vice versa; every opcode traced as a memory or attribute access is a memory use (loads) or a memory definition (stores, deletes); STORE_NAMES holds exactly the traced stores; UniqueInstruction's predicates "
+            "read the table they are named for; for the running interpreter stack_effects (interpreted through the version chain) has the net effect dis.stack_effect reports for every opcode, argument class and jump flag "
+            "(IMPORT_NAME, documented in the repository, aside); check_explicit_data_dependency satisfies eight gen/kill laws over representative contexts (complete definition kills exactly its pending use; partial "
+            "definition is a dependency and kills nothing; unrelated definition is none; object creation kills the address use; attribute definitions are matched per object; globals per file); checked lines are the "
+            "lines of slice instructions and the slice grows from the traversal state only. "
+            "Not decided: completeness of the traversal (stack simulation across frames and exceptions, inlined comprehensions and in-place container construction are outside what the stack simulation models).",
+            "Trusts dis.stack_effect / the opcode module of the interpreter that runs the check, sa/checks/_instr.py and sa/engine/peval.py.",
+            "DESIGN.md §3 C09",
+        ),
+    }
+)
+
 NOT_APPLICABLE: dict[str, str] = {
     "C06": "Correctness of the post-dominator/CDG construction on every code object is functional correctness of a graph "
     "algorithm; no shape of the code implies it and no sound static argument in reach bounds 'all code objects'.",
